@@ -84,6 +84,13 @@ BUILTIN_STRUCTS = {
     'Map': (['I', 'F'], [('iter', 'I'), ('f', 'F')]),
     'Filter': (['I', 'P'], [('iter', 'I'), ('predicate', 'P')]),
     'Cloned': (['I'], [('it', 'I')]),
+    'Take': (['I'], [('iter', 'I'), ('n', 'usize')]),
+    'Skip': (['I'], [('iter', 'I'), ('n', 'usize')]),
+    'StepBy': (['I'], [('iter', 'I'), ('step_minus_one', 'usize'), ('first_take', 'bool')]),
+    'TakeWhile': (['I', 'P'], [('iter', 'I'), ('flag', 'bool'), ('predicate', 'P')]),
+    'SkipWhile': (['I', 'P'], [('iter', 'I'), ('flag', 'bool'), ('predicate', 'P')]),
+    'Chain': (['A', 'B'], [('a', 'Option<A>'), ('b', 'Option<B>')]),
+    'Fuse': (['I'], [('iter', 'Option<I>')]),
     'Peekable': (['I'], [('iter', 'I'), ('peeked', 'Option<Option<&usize>>')]),
     'Copied': (['I'], [('it', 'I')]),
     'IntoIter': (['T', 'N'], [('inner', 'ManuallyDrop<PolymorphicIter<[MaybeUninit<T>; N]>>')]),
